@@ -910,6 +910,42 @@ def sortTrunc : List Entry → List Entry
 def frac : List Entry := [(k3, ⟨23, 0, 0, 0, false⟩), (k1, ⟨16, 0, 0, 0, false⟩)]
 example : ∃ a ∈ (sortTrunc frac).take 1, ∃ b ∈ (sortTrunc frac).drop 1, a.2.cnt < b.2.cnt := by decide
 example : (finish 1 ⟨frac, {}, 0⟩).top = [(k3, ⟨23, 0, 0, 0, false⟩)] := by decide
+
+/-- FinishStringTop whose comparator looks at the weights ROUNDED to a coarser grid `g` (in 1/16 units) instead of the
+    exact float64 counters.  One variant for both seeded families: `g = unit` is the integer truncation
+    (`int(b.count - a.count)`, counts less than 1 apart compare equal), `g = 2·unit` is a float32 copy of the weight at
+    2^24 (float32 spacing 2: 2^24 and 2^24+1 collapse).  Values that collapse keep the enumeration order, so the lighter
+    one can end up retained.  With `g = 1` (the exact comparison of the code) it is `sortDesc`, for which
+    `finish_heaviest` holds. -/
+def insRounded (g : Int) (x : Entry) : List Entry → List Entry
+  | [] => [x]
+  | y :: ys => if y.2.cnt / g ≤ x.2.cnt / g then x :: y :: ys else y :: insRounded g x ys
+def sortRounded (g : Int) : List Entry → List Entry
+  | [] => []
+  | x :: xs => insRounded g x (sortRounded g xs)
+/-- `cmpRounded g cap l`: what is retained / folded when the sort compares on the grid `g` -/
+def cmpRounded (g : Int) (cap : Nat) (l : List Entry) : List Entry × List Entry :=
+  ((sortRounded g l).take cap, (sortRounded g l).drop cap)
+
+theorem insRounded_one (x : Entry) (l : List Entry) : insRounded 1 x l = insDesc x l := by
+  induction l with
+  | nil => rfl
+  | cons y ys ih => simp [insRounded, insDesc, ih]
+
+theorem sortRounded_one (l : List Entry) : sortRounded 1 l = sortDesc l := by
+  induction l with
+  | nil => rfl
+  | cons x xs ih => simp [sortRounded, sortDesc, ih, insRounded_one]
+
+/-- 1.0 enumerated before 1.4375 -/
+def fracR : List Entry := [(k1, ⟨16, 0, 0, 0, false⟩), (k3, ⟨23, 0, 0, 0, false⟩)]
+/-- 2^24 enumerated before 2^24 + 1 (both exact in float64, equal as float32) -/
+def heavyR : List Entry := [(k1, ⟨16777216 * 16, 0, 0, 0, false⟩), (k3, ⟨16777217 * 16, 0, 0, 0, false⟩)]
+example : ∃ a ∈ (cmpRounded unit 1 fracR).1, ∃ b ∈ (cmpRounded unit 1 fracR).2, a.2.cnt < b.2.cnt := by decide
+example : ∃ a ∈ (cmpRounded (2 * unit) 1 heavyR).1, ∃ b ∈ (cmpRounded (2 * unit) 1 heavyR).2, a.2.cnt < b.2.cnt := by decide
+/-- the exact comparison keeps the heavier one in both rows -/
+example : (finish 1 ⟨fracR, {}, 0⟩).top = [(k3, ⟨23, 0, 0, 0, false⟩)] ∧
+    (finish 1 ⟨heavyR, {}, 0⟩).top = [(k3, ⟨16777217 * 16, 0, 0, 0, false⟩)] := by decide
 end Ex
 
 end SH.C07
